@@ -98,6 +98,23 @@ def handler4 (fn : String) : Option Handler :=
           if o = ["stale-eigen"] then "fail stale-eigen (the case line does not carry symmetric_eigen of its matrix)" else
           withOut pomp3 o fun out => judgeWim c m M vals vecs out
         | none => "skip bad-args" }
+  | "quat_from_rotmat" => some {
+      model := fun a => run (do let m ← pm3
+                                let q0 := Quat.fromRotMat m
+                                let n := Float.sqrt ((q0.i * q0.i + q0.k * q0.k) + (q0.j * q0.j + q0.w * q0.w))
+                                pure s!"{fq q0.renormalize} {ff n}") a
+      oracle := fun a o => match run pm3 a with
+        | some m => withOut (do let q ← pquat; let n ← pfo; pure (q, n)) o fun (f, n) =>
+            let V := rofM3 m
+            let VtV := rmul (rtr V) V
+            let defect := (List.range 9).foldl (fun m n => rmax m (rabs (VtV.getD n 0 - (rdiag 1 1 1).getD n 0))) 0
+            if defect > 1 / 1000000000000 ∨ rdet V < 0 then "skip not-a-rotation-matrix" else
+            if !(FloatIO.isFinite f.i && FloatIO.isFinite f.j && FloatIO.isFinite f.k && FloatIO.isFinite f.w && FloatIO.isFinite n) then "fail nonfinite-output" else
+            let n2 := q f.i * q f.i + q f.j * q f.j + q f.k * q f.k + q f.w * q f.w
+            if !close n2 1 1 then "fail not-unit" else
+            if !close (q n) 1 1 then "fail norm-before-renormalize-not-1" else
+            if closeM (rotOfQ f) V 1 then "pass" else s!"fail rotation-of-quaternion-differs got={(rotOfQ f).toList} want={V.toList}"
+        | none => "skip bad-args" }
   | "mp3_reconstruct_inv" => some {
       model := fun a => run (do let p ← pmp3; pure (fm3 p.reconstructInv)) a
       oracle := fun a o => match run pmp3 a with
